@@ -19,6 +19,7 @@ import (
 	"slices"
 	"strings"
 	"sync"
+	"sync/atomic"
 	"time"
 
 	jose "github.com/go-jose/go-jose/v4"
@@ -254,6 +255,11 @@ type Store struct {
 	AccessTTL       time.Duration
 	RefreshTTL      time.Duration
 	SharedSnapshots bool
+	// BlockDeviceLookup makes GetDeviceAuthorizatonState behave like a query that hangs: it returns (with the context's
+	// error) only when the context it was handed ends. A context WITHOUT a deadline would make it hang for ever;
+	// that is recorded (DeviceLookupsWithoutDeadline) and answered at once with a wrapped context.DeadlineExceeded.
+	BlockDeviceLookup            atomic.Bool
+	DeviceLookupsWithoutDeadline atomic.Int64
 	// NaiveSecrets makes AuthorizeClientIDSecret a plain string comparison with the stored secret, as the
 	// repository's example storage does: a client stored without a secret "matches" the empty secret. The default
 	// (false) refuses every client that has no secret.
@@ -1394,6 +1400,24 @@ func (s *Store) storeDeviceAuthorization(ctx context.Context, clientID, deviceCo
 }
 
 func (s *Store) getDeviceAuthorizatonState(ctx context.Context, clientID, deviceCode string) (*op.DeviceAuthorizationState, error) {
+	if s.BlockDeviceLookup.Load() {
+		var err error
+		if _, ok := ctx.Deadline(); !ok {
+			s.DeviceLookupsWithoutDeadline.Add(1)
+			err = fmt.Errorf("vstore: hanging look-up under a context without deadline (it would never return): %w", context.DeadlineExceeded)
+		} else {
+			<-ctx.Done() // outside the lock
+			err = ctx.Err()
+		}
+		s.mu.Lock()
+		defer s.mu.Unlock()
+		idx, ferr := s.enter("GetDeviceAuthorizatonState", clientID, deviceCode, "", nil)
+		if ferr != nil {
+			return nil, ferr
+		}
+		s.leave(idx, "", err)
+		return nil, err
+	}
 	s.mu.Lock()
 	defer s.mu.Unlock()
 	idx, ferr := s.enter("GetDeviceAuthorizatonState", clientID, deviceCode, "", nil)
